@@ -80,7 +80,7 @@ def one(entry, kind, baseline):
             if kind == 'mutant':
                 good = rc == 1 and bool(viol)
             else:
-                good = (rc, known) == baseline[pid]
+                good = baseline[pid][0] == 0 and (rc, known) == baseline[pid]      # the clean tree must pass for the comparison to mean anything
             res['results'][pid] = {'exit': rc, 'violations': [v.strip()[:200] for v in viol[:3]], 'ok': good}
             if not good:
                 res['results'][pid]['output_tail'] = out[-600:]
